@@ -277,6 +277,8 @@ def in_scope(pid, f, ctx=None):
     files = FILES.get(pid, ALL)
     named = pid in MODULE_PROPS
     tag = ""
+    if pid == "C04" and f.rule.startswith("R5-") and "stored with a zero magnitude" in (f.msg or ""):
+        return True, None  # the abstract interpreter found a non-canonical sign: that is C04's subject wherever it happens
     if pid == "C04" and f.rule.startswith("R5-"):
         # value identity needs the representation rules everywhere, but a wrong *value* computed by an operation of another
         # family (a sign helper, a gcd) leaves equal integers indistinguishable
